@@ -272,6 +272,61 @@ theorem fit_never_when_numGPU_huge (common : Inp) (groups : List (Lib × List Gp
       have := hh.2.2.2 (by omega)
       omega
 
+/-! ### the scheduler's adjustment of the free figure (server/sched.go `updateFreeSpace`) -/
+
+/-- **The adjusted free memory never exceeds the reported one.**  For every GPU list (duplicate
+    IDs, any total/free figures, free > total included), every set of loaded runners and every
+    prediction map (sums wrap mod 2^64 as in the code): the free figure `updateFreeSpace` leaves
+    for GPU `i` is at most the one the GPU reported. -/
+theorem free_never_raised (gpus : List SGpu) (runners : List Runner) (i : Nat) (g : SGpu) (f : Nat)
+    (hg : gpus[i]? = some g) (hf : (updateFree gpus runners)[i]? = some f) : f ≤ g.free := by
+  unfold updateFree at hf
+  split at hf
+  · simp only [List.getElem?_map, hg, Option.map_some, Option.some.injEq] at hf
+    subst hf
+    exact adjust_le_free _ _
+  · simp only [List.getElem?_map, hg, Option.map_some, Option.some.injEq] at hf
+    omega
+
+/-- and when some runner is loaded and the prediction does not exceed the total, adjusted free +
+    predicted usage ≤ total memory -/
+theorem free_within_total (gpus : List SGpu) (runners : List Runner) (i : Nat) (g : SGpu) (f : Nat)
+    (hany : runners.any (·.isSome) = true) (hp : predOf gpus runners g.key ≤ g.total)
+    (hg : gpus[i]? = some g) (hf : (updateFree gpus runners)[i]? = some f) :
+    f + predOf gpus runners g.key ≤ g.total := by
+  unfold updateFree at hf
+  simp only [hany, ↓reduceIte, List.getElem?_map, hg, Option.map_some, Option.some.injEq] at hf
+  subst hf
+  exact adjust_le_total _ _ hp
+
+/-- **Composition: estimator on adjusted GPUs ⇒ within the REPORTED free memory.**  If GPU `i`
+    of the estimator's input carries the free figure that `updateFreeSpace` left for GPU `j` of
+    the reported list (the scheduler filters, groups and sorts the adjusted list before it calls
+    the estimator, hence the free correspondence `i ↦ j`), then under the no-wrap guard the size
+    planned on it is 0 or `size + overhead ≤` the free memory GPU `j` *reported*. -/
+theorem sched_alloc_le_reported (inp : Inp) (hnw : NoWrap inp)
+    (rep : List SGpu) (runners : List Runner) (i j : Nat) (g : Gpu) (r : SGpu) (a : Nat)
+    (hg : inp.gpus[i]? = some g) (hr : rep[j]? = some r)
+    (hadj : (updateFree rep runners)[j]? = some g.free)
+    (ha : (estimate inp).sizes[i]? = some a) :
+    a = 0 ∨ a + inp.overhead ≤ r.free := by
+  have h1 := (alloc_le_free_partial inp hnw i g a hg ha).1
+  have h2 := free_never_raised rep runners j r g.free hr hadj
+  rcases h1 with h | h
+  · exact Or.inl h
+  · exact Or.inr (by omega)
+
+/-- the seeded change "always trust our numbers" (`FreeMemory = Total - predicted` unconditionally)
+    is excluded by `free_never_raised`: with 1000 total, 100 reported free and 300 predicted it would
+    hand 700 to the estimator; the code hands 100. Also: predicted > total ⇒ 0; no runner ⇒ unchanged;
+    two list entries with the same (Library, ID) count the prediction twice. -/
+example :
+    updateFree [⟨0, 0, 1000, 100⟩] [some [(0, 300)]] = [100] ∧
+    updateFree [⟨0, 0, 1000, 900⟩] [some [(0, 300)]] = [700] ∧
+    updateFree [⟨0, 0, 1000, 900⟩] [some [(0, 1300)]] = [0] ∧
+    updateFree [⟨0, 0, 1000, 900⟩] [none] = [900] ∧
+    updateFree [⟨0, 0, 1000, 900⟩, ⟨0, 0, 1000, 900⟩] [some [(0, 300)]] = [400, 400] := by decide
+
 /-! ### witnesses and non-vacuity -/
 
 /-- a one-block model on one GPU with 100 bytes free; `overhead` is the parameter -/
